@@ -298,3 +298,472 @@ Lemma emitter_prefix_alone_mixes_targets :
   let a := repeat x00 32 in
   prefix_of (emitter_prefix 4 a 2) (key {| i_ec := 4; i_ea := a; i_tc := 255; i_seq := 7 |}) = true.
 Proof. vm_compute. reflexivity. Qed.
+
+(* ================================================================== 5. histories of StoreSignedVAA *)
+Definition signed (v : vaa) : bool := match sigs v with [] => false | _ => true end.
+Definition id_eqb (i j : vid) : bool :=
+  (i_ec i =? i_ec j) && bytes_eqb (i_ea i) (i_ea j) && (i_tc i =? i_tc j) && (i_seq i =? i_seq j).
+(* the VAA a history leaves under identifier i: the last signed one stored with that identifier *)
+Definition last_stored (vs : list vaa) (i : vid) : option vaa := find (fun v => signed v && id_eqb (id_of v) i) (rev vs).
+Definition live (vs : list vaa) (v : vaa) : Prop := last_stored vs (id_of v) = Some v.
+Definition item (v : vaa) : bytes * bytes := (key (id_of v), marshal v).
+
+Lemma id_eqb_eq i j : id_eqb i j = true <-> i = j.
+Proof.
+  unfold id_eqb. rewrite !andb_true_iff, !Z.eqb_eq, bytes_eqb_eq. destruct i as [c1 a1 t1 s1], j as [c2 a2 t2 s2]. cbn [i_ec i_ea i_tc i_seq].
+  split; [intros [[[-> ->] ->] ->]; reflexivity|intros H; injection H; auto].
+Qed.
+Lemma id_eqb_refl i : id_eqb i i = true.
+Proof. apply id_eqb_eq. reflexivity. Qed.
+
+Lemma wf_idwf v : wf v -> idwf (id_of v).
+Proof. intros W. destruct W. unfold idwf, rng in *. cbn [id_of i_ec i_ea i_tc i_seq]. repeat split; try lia. Qed.
+
+Lemma paycap_none : vaa_paycap = None.
+Proof. reflexivity. Qed.
+Lemma unmarshal_marshal v : wf v -> unmarshal (marshal v) = Ok v.
+Proof. intros W. unfold unmarshal. rewrite paycap_none. apply unmarshal_marshal_nocap. exact W. Qed.
+
+Lemma key_eqb i j : idwf i -> idwf j -> bytes_eqb (key i) (key j) = id_eqb i j.
+Proof.
+  intros Hi Hj. destruct (bytes_eqb_spec (key i) (key j)) as [E|N].
+  - apply key_inj in E; [|assumption|assumption]. subst j. symmetry. apply id_eqb_refl.
+  - destruct (id_eqb i j) eqn:E; [|reflexivity]. apply id_eqb_eq in E. subst j. congruence.
+Qed.
+
+Lemma store_all_snoc s vs v : store_all s (vs ++ [v]) = store_step (store_all s vs) v.
+Proof. unfold store_all. rewrite fold_left_app. reflexivity. Qed.
+
+Lemma last_stored_snoc vs v i :
+  last_stored (vs ++ [v]) i = if signed v && id_eqb (id_of v) i then Some v else last_stored vs i.
+Proof. unfold last_stored. rewrite rev_app_distr. reflexivity. Qed.
+
+Lemma last_stored_some vs i v : last_stored vs i = Some v -> In v vs /\ signed v = true /\ id_of v = i.
+Proof.
+  unfold last_stored. intros H. apply find_some in H as [H1 H2]. apply in_rev in H1. apply andb_true_iff in H2 as [H2 H3].
+  apply id_eqb_eq in H3. auto.
+Qed.
+
+Lemma last_stored_exists vs v : In v vs -> signed v = true -> exists v', last_stored vs (id_of v) = Some v'.
+Proof.
+  intros Hin Hs. unfold last_stored. destruct (find _ (rev vs)) as [v'|] eqn:E; [exists v'; reflexivity|].
+  exfalso. pose proof (find_none _ _ E v (proj1 (in_rev _ _) Hin)) as H. cbn beta in H. rewrite Hs, id_eqb_refl in H. discriminate.
+Qed.
+
+Lemma live_of_last vs i v : last_stored vs i = Some v -> live vs v.
+Proof. intros H. unfold live. destruct (last_stored_some _ _ _ H) as (_ & _ & E). rewrite E. exact H. Qed.
+
+(* what a history from the empty store leaves behind *)
+Record repr (s : store) (vs : list vaa) : Prop := {
+  r_sorted : sorted s;
+  r_keys : forall e, In e s -> exists v, In v vs /\ e = item v;
+  r_get : forall i, idwf i -> get s (key i) = match last_stored vs i with Some v => Some (marshal v) | None => None end }.
+
+Lemma repr_store_all vs : Forall wf vs -> repr (store_all [] vs) vs.
+Proof.
+  induction vs as [|v vs IH] using rev_ind; intros W.
+  - split; [constructor|intros e []|intros i _; reflexivity].
+  - apply Forall_app in W as [W Wv]. inversion Wv as [|? ? Wv' _]; subst. specialize (IH W). destruct IH as [S K G].
+    rewrite store_all_snoc. unfold store_step, store_vaa. unfold signed in *.
+    split.
+    + destruct (sigs v); [exact S|apply sorted_put; exact S].
+    + intros e He. destruct (sigs v) eqn:Es.
+      * destruct (K e He) as (v' & Hv' & Ee). exists v'. split; [apply in_or_app; left; exact Hv'|exact Ee].
+      * apply put_In in He as [->|He]; [exists v; split; [apply in_or_app; right; left; reflexivity|reflexivity]|].
+        destruct (K e He) as (v' & Hv' & Ee). exists v'. split; [apply in_or_app; left; exact Hv'|exact Ee].
+    + intros i Hi. rewrite last_stored_snoc. unfold signed. destruct (sigs v) eqn:Es; cbn [andb]; [apply G; exact Hi|].
+      rewrite get_put, key_eqb; [|apply wf_idwf; exact Wv'|exact Hi]. destruct (id_eqb (id_of v) i); [reflexivity|apply G; exact Hi].
+Qed.
+
+Lemma repr_entry_live s vs : repr s vs -> Forall wf vs -> forall e, In e s -> exists v, live vs v /\ wf v /\ e = item v.
+Proof.
+  intros [S K G] W e He. destruct (K e He) as (v & Hv & ->). rewrite Forall_forall in W. pose proof (W v Hv) as Wv.
+  pose proof (proj2 (sorted_get_In s _ _ S) He) as Hg. rewrite (G _ (wf_idwf v Wv)) in Hg.
+  destruct (last_stored vs (id_of v)) as [v'|] eqn:E; [|discriminate]. assert (Hm : marshal v' = marshal v) by congruence.
+  destruct (last_stored_some _ _ _ E) as (Hin' & _ & Eid). exists v'. split; [apply (live_of_last _ _ _ E)|]. split; [apply W; exact Hin'|].
+  unfold item. rewrite Eid, Hm. reflexivity.
+Qed.
+
+Lemma repr_live_entry s vs : repr s vs -> Forall wf vs -> forall v, live vs v -> In (item v) s.
+Proof.
+  intros [S K G] W v L. destruct (last_stored_some _ _ _ L) as (Hin & _ & _). rewrite Forall_forall in W.
+  apply (sorted_get_In s _ _ S). rewrite (G _ (wf_idwf v (W v Hin))). unfold live in L. rewrite L. reflexivity.
+Qed.
+
+(* local lookup: exactly the last VAA stored under that identifier, byte for byte; nothing for any other identifier *)
+Theorem lookup_history vs i : Forall wf vs -> idwf i ->
+  get_signed_vaa_bytes (store_all [] vs) i = match last_stored vs i with Some v => Found (marshal v) | None => NotFound end.
+Proof.
+  intros W Hi. unfold get_signed_vaa_bytes. rewrite (r_get _ _ (repr_store_all vs W) i Hi). destruct (last_stored vs i); reflexivity.
+Qed.
+
+(* one step: a successful store changes the answer for its own identifier only *)
+Theorem lookup_after_store s v i : wf v -> idwf i -> signed v = true ->
+  exists s', store_vaa s v = Stored s' /\
+  get_signed_vaa_bytes s' i = if id_eqb (id_of v) i then Found (marshal v) else get_signed_vaa_bytes s i.
+Proof.
+  intros W Hi Hs. unfold store_vaa, signed in *. destruct (sigs v); [discriminate|]. eexists. split; [reflexivity|].
+  unfold get_signed_vaa_bytes. rewrite get_put, key_eqb; [|apply wf_idwf; exact W|exact Hi]. destruct (id_eqb (id_of v) i); reflexivity.
+Qed.
+
+(* ================================================================== 6. the gap scan (FindEmitterSequenceGap) *)
+Definition in_stream (c : Z) (a : bytes) (t : Z) (v : vaa) : bool := (echain v =? c) && bytes_eqb (eaddr v) a && (tchain v =? t).
+(* the sequence numbers a history stored in one (emitter chain, emitter address, target chain) stream *)
+Definition stream_seqs (vs : list vaa) (c : Z) (a : bytes) (t : Z) : list Z :=
+  map seq (filter (fun v => signed v && in_stream c a t v) vs).
+Definition present (vs : list vaa) (c : Z) (a : bytes) (t : Z) (q : Z) : Prop :=
+  exists v, In v vs /\ signed v = true /\ echain v = c /\ eaddr v = a /\ tchain v = t /\ seq v = q.
+
+Lemma in_stream_iff c a t v : in_stream c a t v = true <-> echain v = c /\ eaddr v = a /\ tchain v = t.
+Proof. unfold in_stream. rewrite !andb_true_iff, !Z.eqb_eq, bytes_eqb_eq. tauto. Qed.
+
+Lemma stream_seqs_In vs c a t q : In q (stream_seqs vs c a t) <-> present vs c a t q.
+Proof.
+  unfold stream_seqs, present. rewrite in_map_iff. split.
+  - intros (v & E & H). apply filter_In in H as [H1 H2]. apply andb_true_iff in H2 as [H2 H3]. apply in_stream_iff in H3 as (? & ? & ?).
+    exists v. auto 10.
+  - intros (v & H1 & H2 & H3 & H4 & H5 & H6). exists v. split; [exact H6|]. apply filter_In. split; [exact H1|].
+    rewrite H2. cbn [andb]. apply in_stream_iff. auto.
+Qed.
+
+Definition vseq (b : bytes) : Z := match unmarshal b with Ok w => seq w | Err _ => 0 end.
+
+Lemma gap_seqs_map : forall items, (forall e, In e items -> exists w, unmarshal (snd e) = Ok w) ->
+  gap_seqs items = Some (map (fun e => vseq (snd e)) items).
+Proof.
+  induction items as [|[k b] items IH]; intros H; [reflexivity|]. cbn [gap_seqs map snd].
+  destruct (H (k, b) (or_introl eq_refl)) as [w Ew]. cbn [snd] in Ew. unfold vseq at 1. rewrite Ew.
+  rewrite IH; [reflexivity|]. intros e He. apply H. right. exact He.
+Qed.
+
+Lemma zmem_In i l : zmem i l = true <-> In i l.
+Proof.
+  unfold zmem. rewrite existsb_exists. split; [intros (x & Hx & E); apply Z.eqb_eq in E; subst; exact Hx|].
+  intros H. exists i. split; [exact H|apply Z.eqb_refl].
+Qed.
+
+Lemma zrange_In : forall n from i, In i (zrange n from) <-> from <= i < from + Z.of_nat n.
+Proof.
+  induction n as [|n IH]; intros from i; cbn [zrange In]; [lia|]. rewrite IH. lia.
+Qed.
+
+Lemma zrange_sorted : forall n from, StronglySorted Z.lt (zrange n from).
+Proof.
+  induction n as [|n IH]; intros from; cbn [zrange]; constructor; [apply IH|].
+  rewrite Forall_forall. intros i Hi. apply zrange_In in Hi. lia.
+Qed.
+
+Lemma StronglySorted_filter {A} (R : A -> A -> Prop) (f : A -> bool) l : StronglySorted R l -> StronglySorted R (filter f l).
+Proof.
+  induction 1 as [|x l Hs IH Hall]; cbn [filter]; [constructor|]. destruct (f x); [|exact IH].
+  constructor; [exact IH|]. rewrite Forall_forall in *. intros y Hy. apply filter_In in Hy as [Hy _]. apply Hall. exact Hy.
+Qed.
+
+Lemma fold_max_spec : forall l a, let m := fold_left Z.max l a in a <= m /\ (forall q, In q l -> q <= m) /\ (m = a \/ In m l).
+Proof.
+  induction l as [|x l IH]; intros a; cbn [fold_left]; [cbn; repeat split; [lia|intros q []|left; reflexivity]|].
+  destruct (IH (Z.max a x)) as (H1 & H2 & H3). cbn zeta. split; [lia|]. split.
+  - intros q [<-|Hq]; [lia|apply H2; exact Hq].
+  - destruct H3 as [H3|H3]; [|right; right; exact H3]. rewrite H3. destruct (Z.max_spec a x) as [[_ E]|[_ E]]; rewrite E; [right; left; reflexivity|left; reflexivity].
+Qed.
+
+Lemma max_seq_spec l : 0 <= max_seq l /\ (forall q, In q l -> q <= max_seq l) /\ (max_seq l = 0 \/ In (max_seq l) l).
+Proof. apply (fold_max_spec l 0). Qed.
+
+Lemma max_seq_ext l l' : (forall q, In q l <-> In q l') -> max_seq l = max_seq l'.
+Proof.
+  intros H. destruct (max_seq_spec l) as (A1 & A2 & A3). destruct (max_seq_spec l') as (B1 & B2 & B3).
+  assert (max_seq l <= max_seq l') by (destruct A3 as [E|Hin]; [lia|apply B2, H; exact Hin]).
+  assert (max_seq l' <= max_seq l) by (destruct B3 as [E|Hin]; [lia|apply A2, H; exact Hin]). lia.
+Qed.
+
+(* the answer depends only on the SET of sequence numbers found *)
+Lemma gap_of_ext l l' : (forall q, In q l <-> In q l') -> gap_of l = gap_of l'.
+Proof.
+  intros H. unfold gap_of. rewrite (max_seq_ext l l' H). destruct (max_seq l' =? 2 ^ 64 - 1); [reflexivity|]. f_equal.
+  apply filter_ext. intros i. f_equal. apply eq_true_iff_eq. rewrite !zmem_In. apply H.
+Qed.
+
+Definition missing (l : list Z) : list Z := filter (fun i => negb (zmem i l)) (zrange (Z.to_nat (max_seq l - 0 + 1)) 0).
+
+Lemma gap_of_ok l : max_seq l <> 2 ^ 64 - 1 -> gap_of l = GapOk (missing l) 0 (max_seq l).
+Proof. intros H. unfold gap_of. destruct (Z.eqb_spec (max_seq l) (2 ^ 64 - 1)); [contradiction|reflexivity]. Qed.
+Lemma gap_of_loop l : max_seq l = 2 ^ 64 - 1 -> gap_of l = GapLoop.
+Proof. intros H. unfold gap_of. rewrite H, Z.eqb_refl. reflexivity. Qed.
+
+Lemma missing_In l i : In i (missing l) <-> 0 <= i <= max_seq l /\ ~ In i l.
+Proof.
+  unfold missing. rewrite filter_In, zrange_In, negb_true_iff. destruct (max_seq_spec l) as (H0 & _ & _).
+  rewrite Z2Nat.id by lia. rewrite <- zmem_In. destruct (zmem i l); split; intros [A B]; split; try lia; try congruence; try reflexivity.
+Qed.
+
+Lemma missing_sorted l : StronglySorted Z.lt (missing l).
+Proof. unfold missing. apply StronglySorted_filter. apply zrange_sorted. Qed.
+
+(* stream isolation: on the store a history leaves, the scan for one stream computes a function of that stream's
+   sequence numbers alone *)
+Theorem find_gap_stream vs c a t : Forall wf vs -> 0 <= c -> length a = 32%nat -> 0 <= t ->
+  find_gap (store_all [] vs) c a t = gap_of (stream_seqs vs c a t).
+Proof.
+  intros W Hc Ha Ht. pose proof (repr_store_all vs W) as R. set (s := store_all [] vs) in *.
+  unfold find_gap. rewrite (scan_filter _ s (r_sorted _ _ R)). set (p := gap_prefix c a t).
+  assert (Hit : forall e, In e (filter (has_prefix p) s) -> exists v, live vs v /\ wf v /\ e = item v /\ in_stream c a t v = true).
+  { intros e He. apply filter_In in He as [He Hp]. destruct (repr_entry_live s vs R W e He) as (v & Lv & Wv & ->).
+    exists v. split; [exact Lv|]. split; [exact Wv|]. split; [reflexivity|]. unfold has_prefix, item in Hp. cbn [fst] in Hp.
+    apply (gap_prefix_iff c a t (id_of v) Hc Ha Ht (wf_idwf v Wv)) in Hp. apply in_stream_iff. exact Hp. }
+  rewrite gap_seqs_map.
+  2:{ intros e He. destruct (Hit e He) as (v & _ & Wv & -> & _). exists v. apply unmarshal_marshal. exact Wv. }
+  apply gap_of_ext. intros q. rewrite stream_seqs_In, in_map_iff. split.
+  - intros (e & Eq & He). destruct (Hit e He) as (v & Lv & Wv & -> & Hs). unfold item, vseq in Eq. cbn [snd] in Eq.
+    rewrite (unmarshal_marshal v Wv) in Eq. destruct (last_stored_some _ _ _ Lv) as (Hin & Hsg & _).
+    apply in_stream_iff in Hs as (? & ? & ?). exists v. auto 10.
+  - intros (v & Hin & Hsg & E1 & E2 & E3 & E4). destruct (last_stored_exists vs v Hin Hsg) as [v' Ev'].
+    destruct (last_stored_some _ _ _ Ev') as (Hin' & _ & Eid). rewrite Forall_forall in W. pose proof (W v' Hin') as Wv'.
+    exists (item v'). split.
+    + unfold item, vseq. cbn [snd]. rewrite (unmarshal_marshal v' Wv'). change (seq v') with (i_seq (id_of v')). rewrite Eid. exact E4.
+    + apply filter_In. split; [apply (repr_live_entry s vs R); [apply Forall_forall; exact W|exact (live_of_last _ _ _ Ev')]|].
+      unfold has_prefix, item. cbn [fst]. apply (gap_prefix_iff c a t (id_of v') Hc Ha Ht (wf_idwf v' Wv')). rewrite Eid.
+      cbn [id_of i_ec i_ea i_tc]. auto.
+Qed.
+
+Theorem gap_exact vs c a t : Forall wf vs -> 0 <= c -> length a = 32%nat -> 0 <= t -> ~ present vs c a t (2 ^ 64 - 1) ->
+  exists resp last, find_gap (store_all [] vs) c a t = GapOk resp 0 last /\
+    (forall i, In i resp <-> 0 <= i <= last /\ ~ present vs c a t i) /\ StronglySorted Z.lt resp /\
+    (forall q, present vs c a t q -> q <= last) /\ (last = 0 \/ present vs c a t last).
+Proof.
+  intros W Hc Ha Ht Hno. rewrite (find_gap_stream vs c a t W Hc Ha Ht). set (l := stream_seqs vs c a t).
+  destruct (max_seq_spec l) as (M0 & M1 & M2).
+  assert (Hne : max_seq l <> 2 ^ 64 - 1).
+  { intros E. destruct M2 as [M2|M2]; [rewrite E in M2; discriminate|]. apply stream_seqs_In in M2. rewrite E in M2. contradiction. }
+  exists (missing l), (max_seq l). split; [apply gap_of_ok; exact Hne|]. split; [|split; [apply missing_sorted|split]].
+  - intros i. rewrite missing_In. unfold l. rewrite stream_seqs_In. reflexivity.
+  - intros q Hq. apply M1. apply stream_seqs_In. exact Hq.
+  - destruct M2 as [M2|M2]; [left; exact M2|right; apply stream_seqs_In; exact M2].
+Qed.
+
+(* the excluded input: with sequence 2^64-1 in the stream the Go loop `for i := firstSeq; i <= lastSeq; i++` cannot end *)
+Theorem gap_loop vs c a t : Forall wf vs -> 0 <= c -> length a = 32%nat -> 0 <= t -> present vs c a t (2 ^ 64 - 1) ->
+  find_gap (store_all [] vs) c a t = GapLoop.
+Proof.
+  intros W Hc Ha Ht Hp. rewrite (find_gap_stream vs c a t W Hc Ha Ht). set (l := stream_seqs vs c a t).
+  destruct (max_seq_spec l) as (M0 & M1 & M2). apply gap_of_loop.
+  assert (2 ^ 64 - 1 <= max_seq l) by (apply M1, stream_seqs_In; exact Hp).
+  assert (max_seq l <= 2 ^ 64 - 1); [|lia].
+  destruct M2 as [M2|M2]; [rewrite M2; lia|]. apply stream_seqs_In in M2 as (v & Hin & _ & _ & _ & _ & E).
+  rewrite Forall_forall in W. destruct (W v Hin). unfold rng in *. rewrite <- E. change (256 ^ Z.of_nat 8) with (2 ^ 64) in *. lia.
+Qed.
+
+(* ... hence two histories that agree on one stream get the same answer for it, whatever else they store *)
+Corollary gap_isolation vs vs' c a t : Forall wf vs -> Forall wf vs' -> 0 <= c -> length a = 32%nat -> 0 <= t ->
+  (forall q, present vs c a t q <-> present vs' c a t q) ->
+  find_gap (store_all [] vs) c a t = find_gap (store_all [] vs') c a t.
+Proof.
+  intros W W' Hc Ha Ht H. rewrite !find_gap_stream by assumption. apply gap_of_ext. intros q. rewrite !stream_seqs_In. apply H.
+Qed.
+
+(* ================================================================== 7. governance batch (GetGovernanceVAABatch) *)
+Lemma is_slash_iff x : is_slash x = true <-> x = slash.
+Proof. unfold is_slash. destruct (bcmp x slash) eqn:E; [apply bcmp_eq in E; split; auto| |]; (split; [discriminate|]; intros ->; rewrite bcmp_refl in E; discriminate). Qed.
+
+Lemma last_index_no_slash : forall b i acc, ~ In slash b -> last_index_from b i acc = acc.
+Proof.
+  induction b as [|x b IH]; intros i acc H; [reflexivity|]. cbn [last_index_from].
+  destruct (is_slash x) eqn:E; [apply is_slash_iff in E; subst x; exfalso; apply H; left; reflexivity|].
+  apply IH. intros Hin. apply H. right. exact Hin.
+Qed.
+
+Lemma last_index_app : forall a l i acc, last_index_from (a ++ l) i acc = last_index_from l (length a + i) (last_index_from a i acc).
+Proof.
+  induction a as [|x a IH]; intros l i acc; [reflexivity|]. cbn [app last_index_from length]. rewrite IH. f_equal. lia.
+Qed.
+
+Lemma last_slash_split a b : ~ In slash b -> last_slash (a ++ slash :: b) = Some (length a).
+Proof.
+  intros H. unfold last_slash. rewrite last_index_app. cbn [last_index_from].
+  replace (is_slash slash) with true by (symmetry; apply is_slash_iff; reflexivity).
+  rewrite last_index_no_slash by exact H. f_equal. lia.
+Qed.
+
+Lemma skipn_split {A} (a : list A) x b : skipn (S (length a)) (a ++ x :: b) = b.
+Proof. induction a as [|y a IH]; [reflexivity|exact IH]. Qed.
+Lemma firstn_split {A} (a : list A) x b : firstn (length a) (a ++ x :: b) = a.
+Proof. induction a as [|y a IH]; [reflexivity|]. cbn [length app firstn]. rewrite IH. reflexivity. Qed.
+
+Lemma parse_digits_map : forall ds acc, Forall (fun d => 0 <= d < 10) ds ->
+  parse_digits (map (fun d => byte_of_Z (48 + d)) ds) acc = Some (undigits_acc 10 ds acc).
+Proof.
+  induction ds as [|d ds IH]; intros acc H; [reflexivity|]. inversion H as [|? ? Hd Hds]; subst. cbn [map parse_digits undigits_acc].
+  rewrite Z_of_byte_of_Z, Z.mod_small by lia. replace (48 + d - 48) with d by lia.
+  destruct (Z.leb_spec 0 d); [|lia]. destruct (Z.ltb_spec d 10); [|lia]. cbn [andb]. apply IH. exact Hds.
+Qed.
+
+Lemma parse_uint_dec bits n : 0 <= n < 2 ^ bits -> parse_uint bits (dec n) = Some n.
+Proof.
+  intros [H0 H1]. destruct (to_digits_spec 10 ltac:(lia) n H0) as (Hu & Hf & d & t & Ed & _).
+  unfold parse_uint, dec. rewrite (parse_digits_map _ 0 Hf). fold (undigits 10 (to_digits 10 n)). rewrite Hu.
+  rewrite Ed. cbn [map]. destruct (Z.ltb_spec n (2 ^ bits)); [reflexivity|lia].
+Qed.
+
+Lemma key_split i :
+  key i = ((sgn ++ dec (i_ec i) ++ [slash] ++ hex (i_ea i)) ++ slash :: dec (i_tc i)) ++ slash :: dec (i_seq i).
+Proof. rewrite key_eq. rewrite <- !app_assoc. reflexivity. Qed.
+
+Definition entry (v : vaa) : goventry := {| g_tc := tchain v; g_seq := seq v; g_bytes := marshal v |}.
+
+(* the loop body recovers sequence and target chain from the key text *)
+Lemma gov_item_key seqs i b : idwf i -> i_tc i < 2 ^ 16 -> i_seq i < 2 ^ 64 ->
+  gov_item seqs (key i) b =
+  Some (if zmem (i_seq i) seqs then Some {| g_tc := i_tc i; g_seq := i_seq i; g_bytes := b |} else None).
+Proof.
+  intros (Hc & Ha & Ht & Hs) Ht' Hs'. unfold gov_item. rewrite key_split.
+  rewrite last_slash_split by (apply dec_no_slash; exact Hs). rewrite skipn_split, parse_uint_dec by (unfold db_gov_seq_bits; lia).
+  destruct (zmem (i_seq i) seqs); cbn [negb]; [|reflexivity].
+  rewrite firstn_split. rewrite last_slash_split by (apply dec_no_slash; exact Ht). rewrite skipn_split, parse_uint_dec by (unfold db_gov_tc_bits; lia).
+  reflexivity.
+Qed.
+
+Lemma gov_loop_items seqs : forall L, Forall wf L ->
+  gov_loop seqs (map item L) = Some (map entry (filter (fun v => zmem (seq v) seqs) L)).
+Proof.
+  induction L as [|v L IH]; intros W; [reflexivity|]. inversion W as [|? ? Wv WL]; subst. cbn [map gov_loop filter]. unfold item at 1.
+  rewrite gov_item_key.
+  2:{ apply wf_idwf. exact Wv. }
+  2:{ destruct Wv. unfold rng in *. cbn [id_of i_tc]. change (256 ^ Z.of_nat 2) with (2 ^ 16) in *. lia. }
+  2:{ destruct Wv. unfold rng in *. cbn [id_of i_seq]. change (256 ^ Z.of_nat 8) with (2 ^ 64) in *. lia. }
+  rewrite (IH WL). cbn [id_of i_seq i_tc]. destruct (zmem (seq v) seqs); reflexivity.
+Qed.
+
+Lemma items_list (P : vaa -> Prop) : forall l : store, (forall e, In e l -> exists v, P v /\ e = item v) ->
+  exists L, l = map item L /\ Forall P L.
+Proof.
+  induction l as [|e l IH]; intros H; [exists []; split; [reflexivity|constructor]|].
+  destruct (H e (or_introl eq_refl)) as (v & Pv & ->). destruct IH as (L & -> & HL); [intros e He; apply H; right; exact He|].
+  exists (v :: L). split; [reflexivity|constructor; assumption].
+Qed.
+
+Lemma NoDup_map_filter {A B} (g : A -> B) (f : A -> bool) : forall l, NoDup (map g l) -> NoDup (map g (filter f l)).
+Proof.
+  induction l as [|x l IH]; intros H; [constructor|]. cbn [map] in H. inversion H as [|? ? Hn Hl]; subst. cbn [filter].
+  destruct (f x); [|apply IH; exact Hl]. cbn [map]. constructor; [|apply IH; exact Hl].
+  intros Hin. apply Hn. apply in_map_iff in Hin as (y & Ey & Hy). apply filter_In in Hy as [Hy _]. apply in_map_iff. exists y. auto.
+Qed.
+
+Lemma live_same_id vs v v' : live vs v -> live vs v' -> id_of v = id_of v' -> v = v'.
+Proof. unfold live. intros L L' E. rewrite E in L. congruence. Qed.
+
+(* the batch is exactly: the VAAs the history left under the governance emitter whose sequence is requested, each once,
+   each with its own target chain, sequence and bytes *)
+Theorem gov_batch_exact vs c a seqs : Forall wf vs -> 0 <= c -> length a = 32%nat ->
+  exists L, gov_batch (store_all [] vs) c a seqs = GovOk (map entry L) /\ NoDup (map id_of L) /\
+    forall v, In v L <-> live vs v /\ echain v = c /\ eaddr v = a /\ In (seq v) seqs.
+Proof.
+  intros W Hc Ha. pose proof (repr_store_all vs W) as R. set (s := store_all [] vs) in *.
+  unfold gov_batch. rewrite (scan_filter _ s (r_sorted _ _ R)). set (p := gov_prefix c a).
+  set (P := fun v => live vs v /\ wf v /\ echain v = c /\ eaddr v = a).
+  destruct (items_list P (filter (has_prefix p) s)) as (L0 & EL0 & HL0).
+  { intros e He. apply filter_In in He as [He Hp]. destruct (repr_entry_live s vs R W e He) as (v & Lv & Wv & ->).
+    exists v. split; [|reflexivity]. unfold has_prefix, item in Hp. cbn [fst] in Hp.
+    apply (gov_prefix_iff c a (id_of v) Hc Ha (wf_idwf v Wv)) in Hp as [E1 E2]. unfold P. auto. }
+  rewrite EL0. rewrite gov_loop_items.
+  2:{ rewrite Forall_forall in *. intros v Hv. apply (HL0 v Hv). }
+  exists (filter (fun v => zmem (seq v) seqs) L0). split; [reflexivity|]. split.
+  - apply NoDup_map_filter. apply (NoDup_map_inv key). rewrite map_map.
+    replace (map (fun x => key (id_of x)) L0) with (map fst (map item L0)) by (rewrite map_map; reflexivity).
+    rewrite <- EL0. apply sorted_NoDup_keys. unfold sorted. apply StronglySorted_filter. exact (r_sorted _ _ R).
+  - intros v. rewrite filter_In, zmem_In. rewrite Forall_forall in HL0. split.
+    + intros [Hin Hq]. destruct (HL0 v Hin) as (Lv & _ & E1 & E2). auto.
+    + intros (Lv & E1 & E2 & Hq). split; [|exact Hq].
+      destruct (last_stored_some _ _ _ Lv) as (Hin & _ & _). rewrite Forall_forall in W. pose proof (W v Hin) as Wv.
+      assert (Hi : In (item v) (filter (has_prefix p) s)).
+      { apply filter_In. split; [apply (repr_live_entry s vs R); [apply Forall_forall; exact W|exact Lv]|].
+        unfold has_prefix, item. cbn [fst]. apply (gov_prefix_iff c a (id_of v) Hc Ha (wf_idwf v Wv)). auto. }
+      rewrite EL0 in Hi. apply in_map_iff in Hi as (v0 & E0 & Hv0). destruct (HL0 v0 Hv0) as (Lv0 & Wv0 & _ & _).
+      assert (id_of v0 = id_of v).
+      { apply key_inj; [apply wf_idwf; exact Wv0|apply wf_idwf; exact Wv|]. unfold item in E0. congruence. }
+      rewrite <- (live_same_id vs v0 v Lv0 Lv H). exact Hv0.
+Qed.
+
+(* ================================================================== 8. RPC layer and FindMissingMessages *)
+Lemma decode_emitter_hex a : length a = 32%nat -> decode_emitter (hex a) = Some a.
+Proof. intros Ha. unfold decode_emitter. rewrite unhex_hex, Ha. reflexivity. Qed.
+
+Lemma chain16_small x : 0 <= x < 65536 -> chain16 x = x.
+Proof. intros H. unfold chain16. apply Z.mod_small. exact H. Qed.
+
+Lemma copy32_id a : length a = 32%nat -> copy32 a = a.
+Proof. intros Ha. unfold copy32. rewrite <- Ha at 1. rewrite firstn_app, firstn_all, Nat.sub_diag. cbn [firstn]. apply app_nil_r. Qed.
+
+Theorem rpc_get_exact s ec a tc sq : length a = 32%nat -> 0 <= ec < 65536 -> 0 <= tc < 65536 ->
+  rpc_get_signed_vaa s ec (hex a) tc sq =
+  match get_signed_vaa_bytes s {| i_ec := ec; i_ea := a; i_tc := tc; i_seq := sq |} with Found b => ROk b | NotFound => RErr RNotFound end.
+Proof.
+  intros Ha Hc Ht. unfold rpc_get_signed_vaa, rpc_id. rewrite (decode_emitter_hex a Ha), !chain16_small by assumption. reflexivity.
+Qed.
+
+Theorem rpc_get_history vs ec a tc sq : Forall wf vs -> length a = 32%nat -> 0 <= ec < 65536 -> 0 <= tc < 65536 -> 0 <= sq ->
+  rpc_get_signed_vaa (store_all [] vs) ec (hex a) tc sq =
+  match last_stored vs {| i_ec := ec; i_ea := a; i_tc := tc; i_seq := sq |} with Some v => ROk (marshal v) | None => RErr RNotFound end.
+Proof.
+  intros W Ha Hc Ht Hs. rewrite rpc_get_exact by assumption. rewrite lookup_history; [|exact W|unfold idwf; cbn; repeat split; lia].
+  destruct (last_stored vs _); reflexivity.
+Qed.
+
+Lemma batch_lookup_In s ec a tc seqs q b :
+  In (q, b) (batch_lookup s ec a tc seqs) <-> In q seqs /\ get_signed_vaa_bytes s (rpc_id ec a tc q) = Found b.
+Proof.
+  unfold batch_lookup. rewrite in_flat_map. split.
+  - intros (q' & Hq' & Hin). destruct (get_signed_vaa_bytes s (rpc_id ec a tc q')) as [b'|] eqn:E; [|destruct Hin].
+    destruct Hin as [Hin|[]]. injection Hin as -> ->. auto.
+  - intros [Hq E]. exists q. split; [exact Hq|]. rewrite E. left. reflexivity.
+Qed.
+
+Theorem rpc_batch_exact s ec a tc seqs : length a = 32%nat -> 0 <= ec < 65536 -> 0 <= tc < 65536 ->
+  Z.of_nat (length seqs) <= rpc_max_batch ->
+  exists l, rpc_nongov_batch s ec (hex a) tc seqs = ROk l /\
+    forall q b, In (q, b) l <-> In q seqs /\ get_signed_vaa_bytes s {| i_ec := ec; i_ea := a; i_tc := tc; i_seq := q |} = Found b.
+Proof.
+  intros Ha Hc Ht Hn. unfold rpc_nongov_batch. destruct (Z.ltb_spec rpc_max_batch (Z.of_nat (length seqs))); [lia|].
+  rewrite (decode_emitter_hex a Ha). eexists. split; [reflexivity|]. intros q b. rewrite batch_lookup_In. unfold rpc_id.
+  rewrite !chain16_small by assumption. reflexivity.
+Qed.
+
+Theorem rpc_gov_exact s c a seqs : Z.of_nat (length seqs) <= rpc_max_batch ->
+  rpc_gov_batch s c a seqs = match gov_batch s c a seqs with GovOk l => ROk l | GovErr => RErr RInternal end.
+Proof. intros Hn. unfold rpc_gov_batch. destruct (Z.ltb_spec rpc_max_batch (Z.of_nat (length seqs))); [lia|reflexivity]. Qed.
+
+Theorem rpc_oversize_batch s c a ec ahex tc seqs : rpc_max_batch < Z.of_nat (length seqs) ->
+  rpc_gov_batch s c a seqs = RErr RInvalidArgument /\ rpc_nongov_batch s ec ahex tc seqs = RErr RInvalidArgument.
+Proof.
+  intros Hn. unfold rpc_gov_batch, rpc_nongov_batch. destruct (Z.ltb_spec rpc_max_batch (Z.of_nat (length seqs))); [split; reflexivity|lia].
+Qed.
+
+(* the strings FindMissingMessages reports are the id texts of the requested stream: key = "signed/" ++ that text *)
+Lemma key_msg_id ec a tc q : key {| i_ec := ec; i_ea := a; i_tc := tc; i_seq := q |} = sgn ++ msg_id_prefix ec a tc ++ dec q.
+Proof. rewrite key_eq. unfold msg_id_prefix. cbn [i_ec i_ea i_tc i_seq]. rewrite <- !app_assoc. reflexivity. Qed.
+
+Theorem find_missing_exact s ec a tc : length a = 32%nat -> 0 <= ec < 65536 -> 0 <= tc < 65536 ->
+  find_missing s ec (hex a) tc =
+  match find_gap s ec a tc with
+  | GapOk ids f l => MissOk (map (fun q => msg_id_prefix ec a tc ++ dec q) ids) f l
+  | GapErr => MissErr RInternal
+  | GapLoop => MissLoop
+  end.
+Proof.
+  intros Ha Hc Ht. unfold find_missing. rewrite unhex_hex, (copy32_id a Ha), !chain16_small by assumption. reflexivity.
+Qed.
+
+(* boolean well-formedness implies the propositional one (used by the examples) *)
+Lemma rngb_rng n x : rngb n x = true -> rng n x.
+Proof. unfold rngb, rng. rewrite andb_true_iff, Z.leb_le, Z.ltb_lt. auto. Qed.
+Lemma wfb_wf v : wfb v = true -> wf v.
+Proof.
+  unfold wfb. rewrite !andb_true_iff. intros [[[[[[[[[[[[H1 H2] H3] H4] H5] H6] H7] H8] H9] H10] H11] H12] H13].
+  split; try (apply rngb_rng; assumption).
+  - apply Z.eqb_eq. exact H1.
+  - apply Nat.leb_le. exact H3.
+  - rewrite forallb_forall in H4. apply Forall_forall. intros x Hx. specialize (H4 x Hx). apply andb_true_iff in H4 as [A B].
+    split; [apply rngb_rng; exact A|apply Nat.eqb_eq; exact B].
+  - apply Z.eqb_eq. exact H6.
+  - apply Nat.eqb_eq. exact H10.
+  - destruct (payload v); [discriminate|discriminate].
+Qed.
